@@ -38,9 +38,12 @@ def read_digest(las, kw):
     s = io.StringIO()
     try:
         las.write(s, **kw)
-        back = lasio.read(s.getvalue())
     except Exception as e:
-        return "EXC", "%s: %s" % (type(e).__name__, str(e)[:80])
+        return "WEXC", "write: %s: %s" % (type(e).__name__, str(e)[:80])
+    try:
+        back = lasio.read(s.getvalue())
+    except Exception as e:              # lasio cannot read what it wrote: an observation
+        return "EXC", "re-read: %s: %s" % (type(e).__name__, str(e)[:80])
     d, secs = roundtrip.content_digest(back, drop=("VERS", "WRAP"))
     return d, secs
 
@@ -51,7 +54,7 @@ def run(ctx):
     cfg = ("SPECIFICATION Spec\nCONSTANTS\n  MaxCurves = 2\n  MaxCap = 2\n  RowSet = {1}\n  UseDeclaredWhenWrapped = TRUE\n"
            "INVARIANT OrdersAgree\nCHECK_DEADLOCK FALSE\n")
     ctx.model_check("WriteLayout", cfg, label="WriteLayout: OrdersAgree", workers=2)
-    cfg = ("SPECIFICATION Spec\nCONSTANTS\n  Family = \"C12\"\n  MaxCurves = 1\n  NPres = %d\n  NItems = 1\n  MaxList = 0\n  Emit = TRUE\n"
+    cfg = ("SPECIFICATION Spec\nCONSTANTS\n  Family = \"C12\"\n  MaxCurves = 1\n  NPres = %d\n  NItems = 1\n  MaxList = 0\n  TallRows = {}\n  Emit = TRUE\n"
            "CONSTRAINT EmitInst\nCHECK_DEADLOCK FALSE\n" % len(CFG))
     r = ctx.model_check("WriteInstances", cfg, label="WriteInstances family C12 (configuration pairs)", workers=4)
     pairs = sorted(set((p["c1"], p["c2"]) for p in r.printed_json() if p["c1"] != p["c2"]))
@@ -59,10 +62,11 @@ def run(ctx):
     sources = [("gen%d" % i, t) for i, t in enumerate(c11.GEN)] + [("extra%d" % i, t) for i, t in enumerate(EXTRA)]
     corpus = list(corpus_texts())
     if not thorough:
-        corpus = corpus[::4]
+        # every fourth file, and always the files with a declared delimiter or quoted data values
+        corpus = [x for i, x in enumerate(corpus) if i % 4 == 0 or "DLM" in x[1][:600].upper() or '"' in x[1]]
     sources += [(fn.replace(core.REPO, ""), t) for fn, t in corpus]
     events, meta = [], []
-    skipped = 0
+    skipped = unwritable = 0
     for name, text in sources:
         for case in (("upper", "preserve", "lower") if (thorough or name.startswith(("gen", "extra"))) else (rng.choice(["upper", "preserve", "lower"]),)):
             digs = {}
@@ -74,12 +78,15 @@ def run(ctx):
                     ok = False
                     break
                 digs[k + 1] = read_digest(las, CFG[k])
-            if not ok or all(d[0] == "EXC" for d in digs.values()):
+            if not ok or all(d[0] == "WEXC" for d in digs.values()):
                 skipped += 1
                 continue
             use = pairs if thorough else rng.sample(pairs, 10)
             for a, b in use:
                 da, db = digs[a], digs[b]
+                if "WEXC" in (da[0], db[0]):
+                    unwritable += 1         # this input cannot be written with one of the two configurations
+                    continue
                 diff = None
                 if da[0] != db[0] and da[0] != "EXC" and db[0] != "EXC":
                     diff = str(roundtrip.diff_items(da[1], db[1])[:3]) or "curve data differ"
@@ -92,6 +99,7 @@ def run(ctx):
                 ctx.evaluations += 1
                 ctx.case([name, case, a, b])
     ctx.extra["skipped_unreadable_or_unwritable"] = skipped
+    ctx.extra["pairs_skipped_one_configuration_cannot_write"] = unwritable
     ctx.exhaustive = thorough
     fails, _ = ctx.validate("Trace_RoundTrip", {"traces": [[e] for e in events]})
     for tid, l, clause in fails:
